@@ -352,3 +352,146 @@ Proof.
     replace (0 <? e_run e) with true in Ea by (symmetry; apply N.ltb_lt; lia). injection Ea as <-. apply run_ids_In; exact Ht.
   - right. apply (IH lr eq_refl Hin Hlen Ht).
 Qed.
+
+(* ---------- lookups through leaf directories ---------- *)
+(* one step down: a leaf pointer hands the lookup to the directory it points to *)
+Lemma pm_lookup_step av d leaf dir t p dir' :
+  find_tile av dir t = Ok (Some p) -> 0 < e_len p -> e_run p = 0 -> leaf (e_off p) (e_len p) = Ok dir' ->
+  pm_lookup av (S d) leaf dir t = pm_lookup av d leaf dir' t.
+Proof.
+  intros Hf Hl Hr Hleaf. cbn [pm_lookup]. rewrite Hf. cbn [obind].
+  replace (0 <? e_len p) with true by (symmetry; apply N.ltb_lt; exact Hl).
+  rewrite Hr. cbn. rewrite Hleaf. reflexivity.
+Qed.
+
+Lemma pm_lookup_hit av d leaf dir t e :
+  find_tile av dir t = Ok (Some e) -> 0 < e_len e -> 0 < e_run e -> pm_lookup av (S d) leaf dir t = Ok (Some e).
+Proof.
+  intros Hf Hl Hr. cbn [pm_lookup]. rewrite Hf. cbn [obind].
+  replace (0 <? e_len e) with true by (symmetry; apply N.ltb_lt; exact Hl).
+  replace (0 <? e_run e) with true by (symmetry; apply N.ltb_lt; exact Hr). reflexivity.
+Qed.
+
+(* the two-level layout (what as_directory writes when the root would not fit 16 KiB, and what
+   other encoders write): the root holds one pointer per leaf, carrying the leaf's first id *)
+Definition pointer_of (leaf_dir : list entry) (off len : N) : entry :=
+  mkE (match leaf_dir with e :: _ => e_id e | [] => 0 end) off len 0.
+
+Fixpoint root_of (leaves : list (list entry * (N * N))) : list entry :=
+  match leaves with [] => [] | (l, (o, n)) :: r => pointer_of l o n :: root_of r end.
+
+Lemma runs_ok_cons x r : runs_ok (x :: r) = ((match r with [] => True | y :: _ => e_id x + N.max (e_run x) 1 <= e_id y end) /\ runs_ok r).
+Proof. reflexivity. Qed.
+
+Lemma runs_ok_app_l a b : runs_ok (a ++ b) -> runs_ok a.
+Proof.
+  induction a as [|x a IH]; [intros _; exact I|]. rewrite <- app_comm_cons, !runs_ok_cons. intros [H1 H2]. split; [|apply IH; exact H2].
+  destruct a as [|y a']; [trivial|]. exact H1.
+Qed.
+Lemma runs_ok_app_r a b : runs_ok (a ++ b) -> runs_ok b.
+Proof. induction a as [|x a IH]; [intros H; exact H|]. rewrite <- app_comm_cons, runs_ok_cons. intros [_ H2]. apply IH; exact H2. Qed.
+
+Lemma runs_ok_later x r : runs_ok (x :: r) -> forall e, In e r -> e_id x + N.max (e_run x) 1 <= e_id e.
+Proof.
+  revert x; induction r as [|y r IH]; intros x H e He; [destruct He|]. rewrite runs_ok_cons in H. destruct H as [H1 H2].
+  destruct He as [<-|He]; [exact H1|]. specialize (IH y H2 e He). lia.
+Qed.
+
+Lemma runs_ok_app_cross a b : runs_ok (a ++ b) -> forall x y, In x a -> In y b -> e_id x + N.max (e_run x) 1 <= e_id y.
+Proof.
+  induction a as [|z a IH]; intros H x y Hx Hy; [destruct Hx|]. rewrite <- app_comm_cons in H.
+  destruct Hx as [<-|Hx].
+  - apply (runs_ok_later z (a ++ b) H). apply in_or_app; right; exact Hy.
+  - rewrite runs_ok_cons in H. apply IH; [exact (proj2 H)|exact Hx|exact Hy].
+Qed.
+
+(* removing a middle segment keeps the runs disjoint *)
+Lemma runs_ok_drop_middle a m b : runs_ok (a ++ m ++ b) -> runs_ok (a ++ b).
+Proof.
+  induction a as [|x a IH]; intros H; [cbn [app] in *; apply runs_ok_app_r in H; exact H|].
+  rewrite <- app_comm_cons in *. rewrite runs_ok_cons in *. destruct H as [H1 H2]. split; [|apply IH; exact H2].
+  destruct a as [|y a']; [|exact H1]. cbn [app] in *. destruct b as [|z b']; [exact I|].
+  apply (runs_ok_later x (m ++ z :: b')); [rewrite runs_ok_cons; split; assumption|]. apply in_or_app; right; left; reflexivity.
+Qed.
+
+(* the pointers of consecutive non-empty leaves form a directory with disjoint runs *)
+Lemma root_runs_ok ls : runs_ok (concat (map fst ls)) -> Forall (fun x => fst x <> [] /\ 0 < snd (snd x)) ls -> runs_ok (root_of ls).
+Proof.
+  induction ls as [|[l1 [o1 n1]] ls IH]; intros Hr Hne; [exact I|].
+  inversion Hne as [|? ? [Hl1 _] Hne']; subst. cbn [fst snd] in *.
+  cbn [root_of]. rewrite runs_ok_cons. cbn [map concat fst] in Hr. split.
+  - destruct ls as [|[l2 [o2 n2]] ls']; [exact I|]. cbn [root_of].
+    inversion Hne' as [|? ? [Hl2 _] _]; subst. cbn [fst] in Hl2.
+    destruct l1 as [|a1 l1']; [congruence|]. destruct l2 as [|a2 l2']; [congruence|].
+    unfold pointer_of. cbn [e_id e_run]. cbn [map concat fst] in Hr.
+    assert (G : e_id a1 + N.max (e_run a1) 1 <= e_id a2).
+    { apply (runs_ok_app_cross (a1 :: l1') ((a2 :: l2') ++ concat (map fst ls')) Hr a1 a2); left; reflexivity. }
+    lia.
+  - apply IH; [apply runs_ok_app_r in Hr; exact Hr|exact Hne'].
+Qed.
+
+Lemma root_of_app a b : root_of (a ++ b) = root_of a ++ root_of b.
+Proof. induction a as [|[l0 [o0 n0]] a IH]; [reflexivity|]. cbn. f_equal. exact IH. Qed.
+
+(* ids of the pointers before / behind a leaf *)
+Lemma root_ids_before pre m tl : runs_ok (concat (map fst pre) ++ m ++ tl) ->
+  Forall (fun x => fst x <> [] /\ 0 < snd (snd x)) pre ->
+  forall p h, In p (root_of pre) -> In h m -> e_id p < e_id h.
+Proof.
+  induction pre as [|[l0 [o0 n0]] pre IH]; intros Hr Hne p h Hp Hh; [destruct Hp|].
+  inversion Hne as [|? ? [Hl0 _] Hne']; subst. cbn [fst] in Hl0. cbn [map concat fst] in Hr. rewrite <- app_assoc in Hr.
+  destruct Hp as [<-|Hp].
+  - destruct l0 as [|a0 l0']; [congruence|]. unfold pointer_of. cbn [e_id].
+    assert (G : e_id a0 + N.max (e_run a0) 1 <= e_id h).
+    { apply (runs_ok_app_cross (a0 :: l0') (concat (map fst pre) ++ m ++ tl) Hr a0 h); [left; reflexivity|].
+      apply in_or_app; right. apply in_or_app; left; exact Hh. }
+    lia.
+  - apply (IH (runs_ok_app_r _ _ Hr) Hne' p h Hp Hh).
+Qed.
+
+Lemma root_ids_behind m post : runs_ok (m ++ concat (map fst post)) ->
+  Forall (fun x => fst x <> [] /\ 0 < snd (snd x)) post ->
+  forall p e, In p (root_of post) -> In e m -> e_id e + N.max (e_run e) 1 <= e_id p.
+Proof.
+  induction post as [|[l2 [o2 n2]] post IH]; intros Hr Hne p e Hp He; [destruct Hp|].
+  inversion Hne as [|? ? [Hl2 _] Hne']; subst. cbn [fst] in Hl2. cbn [map concat fst] in Hr.
+  destruct Hp as [<-|Hp].
+  - destruct l2 as [|a2 l2']; [congruence|]. unfold pointer_of. cbn [e_id].
+    apply (runs_ok_app_cross m ((a2 :: l2') ++ concat (map fst post)) Hr e a2 He). left; reflexivity.
+  - apply (IH (runs_ok_drop_middle _ _ _ Hr) Hne' p e Hp He).
+Qed.
+
+Theorem two_level_lookup av leaffn pre l o n post e t d :
+  let leaves := pre ++ (l, (o, n)) :: post in
+  runs_ok (concat (map fst leaves)) ->
+  Forall (fun x => fst x <> [] /\ 0 < snd (snd x)) leaves ->
+  leaffn o n = Ok l ->
+  In e l -> 0 < e_len e -> 0 < e_run e -> e_id e <= t < e_id e + e_run e ->
+  pm_lookup av (S (S d)) leaffn (root_of leaves) t = Ok (Some e).
+Proof.
+  intros leaves Hr Hne Hleaf Hin Hlen Hrun Ht.
+  pose proof (root_runs_ok leaves Hr Hne) as Hroot_ok.
+  assert (Hroot_split : root_of leaves = root_of pre ++ pointer_of l o n :: root_of post) by (unfold leaves; rewrite root_of_app; reflexivity).
+  assert (Hcat : concat (map fst leaves) = concat (map fst pre) ++ l ++ concat (map fst post)).
+  { unfold leaves. rewrite map_app, concat_app. reflexivity. }
+  rewrite Hcat in Hr.
+  assert (Hl_ok : runs_ok l) by (apply runs_ok_app_r in Hr; apply runs_ok_app_l in Hr; exact Hr).
+  unfold leaves in Hne. apply Forall_app in Hne as [Hne_pre Hne2]. inversion Hne2 as [|? ? [Hlne Hn] Hne_post]; subst. cbn [fst snd] in Hlne, Hn.
+  destruct l as [|h l']; [destruct Hin|].
+  assert (Hh : e_id h <= e_id e).
+  { destruct Hin as [<-|Hin]; [lia|]. pose proof (runs_ok_later h l' Hl_ok e Hin). lia. }
+  assert (Hfind_root : find_tile av (root_of leaves) t = Ok (Some (pointer_of (h :: l') o n))).
+  { apply (find_in_run av (root_of leaves) (pointer_of (h :: l') o n) t Hroot_ok).
+    - rewrite Hroot_split. apply in_or_app. right. left. reflexivity.
+    - right. unfold pointer_of at 1 2. cbn [e_run e_id]. split; [reflexivity|]. split; [lia|].
+      intros e' He' Hlt. unfold pointer_of in Hlt. cbn [e_id] in Hlt.
+      rewrite Hroot_split in He'. apply in_app_or in He'. destruct He' as [He'|[<-|He']].
+      + pose proof (root_ids_before pre (h :: l') (concat (map fst post)) Hr Hne_pre e' h He' (or_introl eq_refl)). lia.
+      + unfold pointer_of in *. cbn [e_id] in *. lia.
+      + pose proof (root_ids_behind (h :: l') post (runs_ok_app_r _ _ Hr) Hne_post e' e He' Hin). lia.
+    - intros H0. unfold pointer_of in H0. cbn [e_run] in H0. lia. }
+  rewrite (pm_lookup_step av (S d) leaffn (root_of leaves) t (pointer_of (h :: l') o n) (h :: l') Hfind_root);
+    [|unfold pointer_of; cbn [e_len]; exact Hn|reflexivity|unfold pointer_of; cbn [e_off e_len]; exact Hleaf].
+  apply pm_lookup_hit; [|exact Hlen|exact Hrun].
+  apply (find_in_run av (h :: l') e t Hl_ok Hin); [left; lia|intros _; lia].
+Qed.
